@@ -278,22 +278,53 @@ def symbol_directories(prog: Program):
     return names
 
 
+def _local_names(fi: FuncInfo):
+    a = fi.node.args
+    params = {p.arg for p in a.posonlyargs + a.args + a.kwonlyargs} | ({a.vararg.arg} if a.vararg else set()) | \
+        ({a.kwarg.arg} if a.kwarg else set())
+    return {n.id for n in ast.walk(fi.node) if isinstance(n, ast.Name) and isinstance(n.ctx, ast.Store)} - params
+
+
 def creator_args(prog: Program, creator: FuncInfo, caller: FuncInfo):
     """-> build(cls, symbol, name, definition) -> (args, kwargs) for a private unit-creating method, in the order and
     under the keywords its public caller uses: the caller's own parameters `symbol` and `name` are API; whatever else
     it passes is the definition."""
     call = None
     for n in _calls(caller):
-        if isinstance(n.func, ast.Attribute) and n.func.attr == creator.name and isinstance(n.func.value, ast.Name) \
-                and n.func.value.id in ("cls", "self"):
+        if (isinstance(n.func, ast.Attribute) and n.func.attr == creator.name and isinstance(n.func.value, ast.Name)) or \
+                (isinstance(n.func, ast.Name) and n.func.id == creator.name):
             call = n
     if call is None:
         raise AnalysisError(f"anchor vanished: call of {creator.qualname} in {caller.qualname}")
+    a_ = caller.node.args
+    params = {p.arg for p in a_.posonlyargs + a_.args + a_.kwonlyargs}
+
+    def words(e):
+        out = []
+        for n in ast.walk(e):
+            if isinstance(n, ast.Name):
+                out.append(n.id)
+            elif isinstance(n, ast.Constant) and isinstance(n.value, str):
+                out.append(n.value)
+        return out
 
     def role(e):
-        if isinstance(e, ast.Name) and ("symbol" in e.id):
+        # the public parameters (or the string keys popped from **kwds) an argument is computed from say what it
+        # is; the names of local variables do not
+        locs = _local_names(caller)
+        if isinstance(e, ast.Name) and e.id in locs:
+            ws = []
+            for n in ast.walk(caller.node):
+                if isinstance(n, ast.Assign) and any(isinstance(t, ast.Name) and t.id == e.id for t in n.targets):
+                    ws += words(n.value)
+                elif isinstance(n, ast.AnnAssign) and isinstance(n.target, ast.Name) and n.target.id == e.id and n.value:
+                    ws += words(n.value)
+        else:
+            ws = words(e)
+        ws = [w for w in ws if w not in locs]
+        if any("symbol" in w for w in ws):
             return "symbol"
-        if isinstance(e, ast.Name) and ("name" in e.id):
+        if any("name" in w for w in ws):
             return "name"
         return "definition"
     pos = [role(a) for a in call.args]
